@@ -70,6 +70,38 @@ def replay(pid: str, path: str) -> int:
     return 0
 
 
+TEST_TEMPLATE = '''# -*- coding: utf-8 -*-
+"""Stand-alone replay of one recorded execution (no explorer involved): property {pid}, clause {clause}.
+
+Run with:  PYTHONHASHSEED=0 PYTHONPATH={repo}/src:{root} /venv/bin/python -m pytest -q -p no:cacheprovider {name}
+The test fails while the recorded violation reproduces on the tree under PYTHONPATH and passes once it is gone.
+"""
+import importlib
+import json
+
+RECORDED = json.loads({doc!r})
+
+
+def test_recorded_execution_no_longer_violates_{pid_lower}():
+    mod = importlib.import_module('pv.props.{pid_lower}')
+    first = mod.replay(RECORDED)
+    second = mod.replay(RECORDED)
+    assert sorted(v['clause'] for v in first) == sorted(v['clause'] for v in second), 'replay is not deterministic'
+    assert RECORDED['clause'] not in [v['clause'] for v in first], [v for v in first if v['clause'] == RECORDED['clause']][:1]
+'''
+
+
+def emit_test(pid: str, replay_path: str, out_path: str) -> int:
+    with open(replay_path) as handle:
+        doc = json.load(handle)
+    text = TEST_TEMPLATE.format(pid=pid, pid_lower=pid.lower(), clause=doc.get('clause'), doc=json.dumps(doc),
+                                repo=os.environ.get('PV_REPO', '/repo'), root=ROOT, name=os.path.basename(out_path))
+    with open(out_path, 'w') as handle:
+        handle.write(text)
+    print(f'wrote {out_path}')
+    return 0
+
+
 def main(argv: List[str] | None = None) -> int:
     parser = argparse.ArgumentParser()
     parser.add_argument('property')
@@ -77,9 +109,12 @@ def main(argv: List[str] | None = None) -> int:
     parser.add_argument('--replay')
     parser.add_argument('--workers', type=int, default=int(os.environ.get('VERIF_WORKERS', '0')) or None)
     parser.add_argument('--no-evidence', action='store_true')
+    parser.add_argument('--emit-test', help='with --replay: write a stand-alone pytest file that replays the recorded execution')
     args = parser.parse_args(argv)
     pid = args.property.upper()
     seed = int(os.environ.get('VERIF_SEED', '0') or 0)
+    if args.replay and args.emit_test:
+        return emit_test(pid, os.path.abspath(args.replay), args.emit_test)
     if args.replay:
         return replay(pid, args.replay)
 
